@@ -88,10 +88,16 @@ class RegWorld:
   def register(self, q, api):
     gin = self.gin
     module, name = self.real_sel(q['sel']).rsplit('.', 1)
+    # every other request spells the full name as a dotted `name` (module left out, or - for the invalid-module requests
+    # - given and invalid): the verdict and the selector are the same
+    # (not for a method: Gin asks that a method's module be left to its class)
+    dotted_name = q['nameValid'] and q['obj'] != 'meth' and (self.step + _COUNTER[0]) % 2 == 0
+    if dotted_name:
+      name, module = module + '.' + name, None
     if not q['nameValid']:
       name = 'bad name!'
     if not q['moduleValid']:
-      module = 'bad module!'
+      module = ['bad module!', '', 'a..b'][self.step % 3]
     kw = dict(module=module)
     if q['bothLists']:
       kw.update(allowlist=['a'], denylist=['x'])
